@@ -121,6 +121,7 @@ def meta(tier):
                 'directive at each position, and the four must-reject replacements (undefined label, unknown mnemonic, operands no '
                 'variant accepts, value just outside its field on either side), a directive with an unresolvable label inserted at each '
                 'position (also directives that emit nothing: .fill 0, x); expression-length family (N in 8,16,24,32,64 tokens in every expression position); '
+                'empty-image family (5 programs that assemble to no byte at all x configurations x output pre-seeded / absent: the image must exist afterwards); '
                 'wide-address family (address widths 24/32/40/64 x code at 7 addresses around 2^16, 2^24, 2^32, 2^40, 2^48 x every format, where a '
                 'format may be unable to express the address and the failure arises while the outputs are produced); each '
                 'under the output configurations (no pretty print / each of 4 formats / a window / --no-binary with a pretty print) with the output file pre-seeded with '
@@ -130,7 +131,7 @@ def meta(tier):
                    'timeout_s_inproc': 10, 'timeout_s_cli_confirmation': 60},
         'assumptions': ['termination is judged by a 10 s wall-clock budget per execution (normal executions take ~2 ms) and reported only '
                         'if the same input also exceeds 60 s through the real CLI in a fresh process'],
-        'floors': {'evaluations': 1000, 'nontrivial': 100, 'statuses': ['OK', 'REJECT'], 'clauses': ['invariants', 'must-reject', 'long-expression', 'wide-address']},
+        'floors': {'evaluations': 1000, 'nontrivial': 100, 'statuses': ['OK', 'REJECT'], 'clauses': ['invariants', 'must-reject', 'long-expression', 'wide-address', 'empty-image']},
         'nshards': 64, 'xcheck': 24,
     }
 
@@ -225,6 +226,24 @@ def shard(acc, tier, idx, n):
                 match = [d for d in second if d[0] == w2]
                 if match:
                     execute(acc, match[0][1], f'{bname}: {w1} + {w2}', None, 'invariants', CONFIGS[(ctr // n) % 2])
+    # ---- successful assemblies whose image holds no byte at all: the (empty) image still exists afterwards ------------------------
+    empties = [
+        ('definitions only', ['K = 1', 'lab:', '    .org $10', '; nothing else'], {}),
+        ('zero-length directives only', ['    .zero 0', '    .fill 0, $FF'], {}),
+        ('everything muted', ['#mute', '    .byte 1, 2', '    nop', '#unmute'], {}),
+        ('window beyond the code', ['    .byte 1, 2'], {'start': 0x40}),
+        ('window before the code', ['    .org $20', '    .byte 1, 2'], {'start': 0, 'end': 0x0F, 'fill': 0}),
+    ]
+    for what, new, extra in empties:
+        for cfg in CONFIGS[:6]:
+            for pre in (True, False):
+                ctr += 1
+                if ctr % n != idx:
+                    continue
+                o = execute(acc, new, f'empty image: {what}', None, 'empty-image', dict(cfg, **extra), preseed=pre)
+                if o.status != 'OK':
+                    acc.violation([Case(ISA, {'main.asm': '\n'.join(new) + '\n', 'inc.asm': INCLUDED})], {'type': 'c14', 'preseed': pre},
+                                  f'program ({what}) does not assemble: {o.detail}', [o])
     # ---- labels of file scope are unresolvable from the other file of an include pair --------------------------------
     lines = BASES['files']
     cross = [
